@@ -262,6 +262,34 @@ def run(ctx):
         ctx.note(case, bool(set(cl) & NT), cl)
         ctx.handle(case, fails)
 
+    # real documents shipped with the repository (test data, SCO example bundle): fixed seeds, each first passed through the
+    # independent validator (documents it rejects -- e.g. 2.0 data with custom content -- are counted and skipped)
+    if ctx.worker in (None, 0):
+        import glob
+        import os
+        ctx.collect_only = True
+        files = sorted(glob.glob(os.path.join(core.REPO, "stix2", "test", "v2*", "stix2_data", "**", "*.json"), recursive=True))
+        files.append(os.path.join(core.REPO, "sco-examples-bundle.json"))
+        for fn in files:
+            try:
+                with open(fn) as f:
+                    data = json.load(f)
+            except (OSError, ValueError):
+                continue
+            objs = data if isinstance(data, list) else data.get("objects", [data]) if isinstance(data, dict) and data.get("type") == "bundle" else [data]
+            for o in objs:
+                if not isinstance(o, dict) or not isinstance(o.get("type"), str):
+                    continue
+                ver = VAL.detect_version(o)
+                if VAL.validate(o, ver):
+                    ctx.exclude("corpus-document-not-valid-per-model")
+                    continue
+                for text in (False, True):
+                    case = {"ver": ver, "doc": o, "wrap": "alone", "text": text, "shape": "corpus"}
+                    ctx.note(case, True, ["corpus", "type:%s/%s" % (ver, o["type"])])
+                    ctx.handle(case, check_case(case))
+        ctx.collect_only = False
+
     core.run_given(ctx, case_strategy(), body, ctx.n(2500, 12000), label="c03-main")
 
 
